@@ -235,6 +235,15 @@ func enumC16(c *lib.Ctx, yield func(c16Case) bool) {
 			if !enumScripts(alphaFull, 2, y) || !enumScripts(alpha3, 3, y) {
 				return
 			}
+			// k = 5 over 2 lines on direct-mapped single caches; k = 4 over 3 lines on 2-way single caches
+			if hasCache(cfg) && cfg.Memory == "ideal" && cfg.NumMem == 1 && cfg.Lat == 1 && cfg.Eager && len(cfg.Stages) == 1 {
+				dm := cfg
+				dm.Ways = 1
+				yd := func(ops []simx.MemOp) bool { return yield(c16Case{dm, ops}) }
+				if !enumScripts(alpha2, 5, yd) || !enumScripts(alpha3, 4, y) {
+					return
+				}
+			}
 			// k = 4 over 2 lines on the two-level cache hierarchies
 			if len(cfg.Stages) >= 2 && cfg.Memory == "ideal" && cfg.NumMem == 1 && cfg.Lat == 1 {
 				if !enumScripts(alpha2, 4, y) {
@@ -242,6 +251,16 @@ func enumC16(c *lib.Ctx, yield func(c16Case) bool) {
 				}
 			}
 			continue
+		}
+		// deep family: direct-mapped caches make eviction reachable with one other
+		// line, so k = 4 over 2 lines covers miss + coalesced write + eviction + re-read
+		if hasCache(cfg) && cfg.Memory == "ideal" && cfg.NumMem == 1 && cfg.Lat == 1 && cfg.Eager && len(cfg.Stages) == 1 {
+			dm := cfg
+			dm.Ways = 1
+			yd := func(ops []simx.MemOp) bool { return yield(c16Case{dm, ops}) }
+			if !enumScripts(alpha2, 4, yd) {
+				return
+			}
 		}
 		// quick: k = 2 over 3 lines everywhere; k = 3 over 3 lines (enough to
 		// overflow 2 ways) on the cache-bearing assemblies over ideal memory
@@ -261,7 +280,7 @@ func init() {
 		ID:    "C16",
 		Level: "exploration",
 		Rule: "exhaustive small-scope simulation: assemblies = {none, rob, wb, wt-around, wt-evict, wt-through, wt-*>wb, rob>wb, rob>wt-through>wb, wb>wb} x memory {ideal, banked 1/2 banks} x {1, 2 interleaved controllers} x 3 (port buffer, latency, MSHR) settings x {one-at-a-time, eager} issue, plus 5 DRAM presets x {open, close} x {none, wb}; " +
-			"caches are 2 sets x 2 ways x 64 B with all line addresses forced into one set; workloads = every sequence of k operations over {read4@0, read4@8, read line, write line, write4@0, write4@8, masked line write} x lines (quick: k=2 over 3 lines everywhere, k=3 over 3 lines on cache-bearing assemblies over one ideal memory; thorough: k=2 over 4 lines and k=3 over 3 lines everywhere, k=4 over 2 lines on two-level hierarchies), run on the real components and SerialEngine; " +
+			"caches are 2 sets x 2 ways x 64 B with all line addresses forced into one set; workloads = every sequence of k operations over {read4@0, read4@8, read line, write line, write4@0, write4@8, masked line write} x lines (quick: k=2 over 3 lines everywhere, k=3 over 3 lines on cache-bearing assemblies over one ideal memory, k=4 over 2 lines on direct-mapped single caches; thorough: k=2 over 4 lines and k=3 over 3 lines everywhere, k=4 over 2 lines on two-level hierarchies, k=5 over 2 lines on direct-mapped and k=4 over 3 lines on 2-way single caches), run on the real components and SerialEngine; " +
 			"oracle = flat byte map (masks honoured) in script order (legal because overlapping requests are never in flight together), exactly one response of the right kind per request addressed to the requester, nothing outstanding at the end. Each (assembly, script) is a distinct case.",
 		Sharded:     true,
 		MinOutcomes: 20,
